@@ -245,7 +245,10 @@ class DiskFile(VirtualFileContainer):
 
         for file_name_pointer in range(pointer, pointer + length):
             sequence.append(self.buffer[file_name_pointer])
-        return bytearray(sequence).decode("utf-8") if decode else sequence
+        try:
+            return bytearray(sequence).decode("utf-8") if decode else sequence
+        except UnicodeDecodeError:
+            raise VirtualFileValidationError("Unable to decode sequence of length {}".format(length))
 
     def validate_sequence(self, pointer, sequence):
         """
